@@ -43,7 +43,7 @@ def run(ctx):
             ctx.violation(mech, msg, case=dict(ops=h.d.ops[-40:], cycle=h.cycles, when=when))
 
     for idx, rng in ctx.cases():
-        pf = mdrv.MProfile(weights={'partition_schedule': 4})
+        pf = mdrv.MProfile(weights={'partition_schedule': 4, 'bucket_reparent': 2})
         if idx % 3 == 1:
             # a standby master queues for the election lock at the start (Master.run) and takes over at the end
             pf.standby, pf.p_restart = True, 0.0
